@@ -484,6 +484,8 @@ func c04(c *Ctx) (*report.Result, error) {
 	res.RuleDoc["O4.2"] = "every worker goroutine of sender and receiver trips the latch on every exit (so a broken target or source stream ends its partner)"
 	res.RuleDoc["O4.3"] = "per-incarnation state: sender/receiver structs are built only in streamRouting; the id ring, the delivery and ack channels and the per-target ack map are created in Run; lastSentMin is reset in Run - nothing acknowledged or queued in one incarnation survives into the next"
 	res.RuleDoc["O4.4"] = "the previous receiver incarnation is cancelled before the new one registers (see O8.3)"
+	res.RuleDoc["O4.5"] = "a target stream that (re)connects is not told a watermark above tasks still waiting for it: lastWatermark is written only from watermark-only batches (same rule as O1.6)"
+	checkReplayedWatermark(c, res, "O4.5")
 
 	if f := resolve(c, res, "O4.1", anchor{"proxy", "", "streamRouting"}); f != nil {
 		mk := flow.FindCalls(f, func(cc *ssa.CallCommon) bool {
